@@ -53,6 +53,10 @@ type RelayPlan struct {
 	Pubs  []PubPlan       `json:"pubs"`
 	Cons  []ConsPlan      `json:"cons"`
 	Ops   []RelayOp       `json:"ops"`
+	// Epilogue: after the ops, end every publisher and consumer, let the server clean up and measure
+	// what is left (C16).
+	Epilogue bool `json:"epilogue,omitempty"`
+	Dispose  bool `json:"dispose,omitempty"` // end with ILalServer.Dispose instead of letting sessions leave
 }
 
 // ---- generation ----------------------------------------------------------------------------------------------------------
